@@ -22,8 +22,27 @@ def plan(tier):
     return qs
 
 
+class C15Check(ResCheck):
+    def confirm(self, q, path):
+        """native confirmation of a race on the Resource: the same thread programs on real threads under ThreadSanitizer"""
+        import subprocess, json
+        from vflib import core
+        rp = json.load(open(path))
+        exe = self.ws.path('tsan_' + os.path.basename(path).replace('.json', ''))
+        defs = ['-D' + d for d in rp['defines'] if d[:2] in ('P0', 'P1', 'P2', 'P3')]
+        srcs = [os.path.join(VERIF, 'harness', 'h_res_tsan.cpp'), os.path.join(core.REPO, 'src/threading/rwp/Resource.cpp')]
+        r = subprocess.run(['g++', '-std=c++20', '-g', '-O1', '-fsanitize=thread', '-I', os.path.join(core.REPO, 'include')] + defs + srcs + ['-o', exe, '-lpthread'], capture_output=True, text=True)
+        if r.returncode != 0:
+            raise core.BrokenCheck('TSan confirmation build failed:\n' + r.stderr[-2000:])
+        try:
+            r = subprocess.run([exe], capture_output=True, text=True, errors='replace', timeout=300, env=dict(os.environ, TSAN_OPTIONS='exitcode=66 halt_on_error=1'))
+        except subprocess.TimeoutExpired:
+            return False, 'TSan confirmation timed out'
+        return r.returncode != 0, 'exit=%d (ThreadSanitizer on the real build)\n%s' % (r.returncode, r.stderr[-2500:])
+
+
 def run(tier, seed):
-    ck = ResCheck('C15', tier, seed)
+    ck = C15Check('C15', tier, seed)
     qs = plan(tier)
     units, cubes = C11.plan(tier)
     if tier == 'quick':
@@ -49,8 +68,10 @@ def run(tier, seed):
 
 
 def replay(path):
-    ck = ResCheck('C15', 'quick', 0)
-    ok, out = ck.native_replay(path)
+    import json
+    rp = json.load(open(path))
+    ck = C15Check('C15', 'quick', 0) if 'h_res' in ' '.join(rp['harness']) else C11.C11Check('C15', 'quick', 0)
+    ok, out = ck.confirm(None, path)
     print(out)
     if ok:
         print('VIOLATION property=C15 replay=%s' % path)
